@@ -680,6 +680,11 @@ def division_axioms(lins):
     for l in lins:
         atoms |= l.atoms()
     for a in atoms:
+        if isinstance(a, tuple) and a[0] == '%':
+            # 0 <= x % m <= m - 1   (m >= 1 is the caller's obligation; m == 0 is undefined behaviour anyway)
+            r = Lin.atom(a)
+            out.append(-r)
+            out.append(r - linearize(a[2]) + 1)
         if isinstance(a, tuple) and a[0] == '/' and is_c(a[2]) and a[2][1] > 0:
             c = a[2][1]
             x = linearize(a[1])
